@@ -1,8 +1,9 @@
 SPECIFICATION Spec
 CONSTANTS Langs <- LangsAll
 MaxF <- MaxFQuick
+AllBits = FALSE
 FullPairs = FALSE
 Precs <- PrecsAll
 Vers <- VersAll
-INVARIANTS Slice TypeOK Discriminating CompletionSmall
+INVARIANTS CoverOK Slice TypeOK Discriminating CompletionSmall
 CHECK_DEADLOCK FALSE
